@@ -80,7 +80,11 @@ func newCKKSWorld(c *engine.Chooser, name string, k cfg) *ckksWorld {
 	w.gap = w.rp.N() / w.dslots
 	w.pout, w.rpOut, w.POut, w.gapOut = w.params, w.rp, w.P, w.gap
 	if k.outChain != "" { // parameter switch: another chain and/or ring degree, fresh output keys
-		w.pout = outChains[k.outChain].CKKS(k.logScale)
+		ls := k.logScale
+		if v, ok := outScale[k.outChain]; ok {
+			ls = v // the output parameters have their own default scale
+		}
+		w.pout = outChains[k.outChain].CKKS(ls)
 		w.rpOut = w.pout.Parameters
 		w.POut = mp.NewParties(w.rpOut, k.n)
 		w.gapOut = w.rpOut.N() / w.dslots
